@@ -183,12 +183,17 @@ def units(tier, seed):
     from . import c14stats, c14lock
     us += c14stats.units(tier)
     us += c14lock.units(tier)
+    from . import c13main      # the real main() around the pool model: a failing iteration affects only its own row
+    us += [u for u in c13main.units(tier) if not u['lock_outcomes']]
     return us
 
 
 def run_unit(unit):
     if unit['harness'] == 'rows':
         yield from run_rows_unit(unit)
+    elif unit['harness'] == 'main':
+        from . import c13main
+        yield from c13main.run_unit(unit)
     elif unit['harness'] == 'contention':
         from . import c14lock
         yield from c14lock.run_unit(unit)
